@@ -388,14 +388,15 @@ class VMNetconfig(object):
 
     def get_allocatable_address(self) -> str:
         """Return the next IP address in the pool of available IPs that can be used by DHCP clients in the network."""
+        net_ip = ipaddress.IPv4Address(str(self.net_ip))
         for val in self.range:
-            if self.range[val] is False:
+            # addresses within the range could already be used by static interfaces
+            if self.range[val] is False and str(net_ip + val) not in self.interfaces:
                 self.range[val] = True
                 new_address = val
                 break
         else:
             raise IndexError("IP address range (%d) exhausted." % len(self.range))
-        net_ip = ipaddress.IPv4Address(str(self.net_ip))
         return str(ipaddress.IPv4Address(str(net_ip + new_address)))
 
     def translate_address(self, ip: str, nat_ip: str) -> str:
